@@ -263,10 +263,43 @@ pub fn pipe_line(tag: &str, e: &Engine, volume_db: f64, lines: &[String], kind: 
                 push_matrix(&mut line, lf0);
                 push_matrix(&mut line, lpf);
             }
+            let fp = e.condition.get_fperiod();
             match catch(std::panic::AssertUnwindSafe(move || g.generate_all())) {
                 Ok(w) => {
-                    push_s(&mut line, "ok");
-                    push_fs(&mut line, &w);
+                    // the other two public routes to the same waveform must complete and agree bit for bit:
+                    // Engine::synthesize, and a generator stepped k frames and then finished (seeded change C01f)
+                    let k = 1 + w.len() % 3;
+                    let o2 = owned.clone();
+                    let r_syn = catch(std::panic::AssertUnwindSafe(|| e.synthesize(o2).map_err(|x| format!("{x}"))));
+                    let o3 = owned.clone();
+                    let r_step = catch(std::panic::AssertUnwindSafe(|| {
+                        let mut g2 = e.generator(o3).map_err(|x| format!("{x}"))?;
+                        let mut acc: Vec<f64> = Vec::new();
+                        let mut buf = vec![0.0f64; fp];
+                        for _ in 0..k {
+                            let n = g2.generate_step(&mut buf);
+                            acc.extend_from_slice(&buf[..n]);
+                        }
+                        acc.extend(g2.generate_all());
+                        Ok::<Vec<f64>, String>(acc)
+                    }));
+                    let bits = |a: &[f64], b: &[f64]| a.len() == b.len() && a.iter().zip(b).all(|(x, y)| x.to_bits() == y.to_bits());
+                    let route_fail = match (&r_syn, &r_step) {
+                        (Err(s), _) => Some(format!("route synthesize panics: {s}")),
+                        (_, Err(s)) => Some(format!("route {k} x generate_step + generate_all panics: {s}")),
+                        (Ok(Err(x)), _) => Some(format!("route synthesize fails: {x}")),
+                        (_, Ok(Err(x))) => Some(format!("route generator fails: {x}")),
+                        (Ok(Ok(a)), _) if !bits(a, &w) => Some(format!("route synthesize returns {} samples / other bits than generate_all ({})", a.len(), w.len())),
+                        (_, Ok(Ok(b))) if !bits(b, &w) => Some(format!("route {k} x generate_step + generate_all returns {} samples / other bits than generate_all ({})", b.len(), w.len())),
+                        _ => None,
+                    };
+                    if let Some(msg) = route_fail {
+                        push_s(&mut line, "panic");
+                        push_s(&mut line, &esc(&msg));
+                    } else {
+                        push_s(&mut line, "ok");
+                        push_fs(&mut line, &w);
+                    }
                 }
                 Err(s) => {
                     push_s(&mut line, "panic");
@@ -537,10 +570,22 @@ pub fn gen_c15(seed: u64, thorough: bool) {
         let lines = src.labels(&mut rng, nlab, recombine);
         let h = match i % 5 { 0 => 0.0, 1 => *rng.pick(&[24.0, -24.0, 12.0, -12.0, 1.0]), 2 => rng.uniform(-80.0, 80.0), _ => rng.uniform(-24.0, 24.0) };
         e.condition.set_additional_half_tone(0.0);
+        // every third case sets the half tone BEFORE the voice defaults are (re)loaded into the condition — the order of a
+        // hand-built `Condition` or of voices reloaded into a running engine (seeded change C15f); `load_model` takes the
+        // header's values and must leave the user's half tone alone.  The reference goes through the same reload.
+        let reload = i % 3 == 1;
+        if reload {
+            let vs = e.voices.clone();
+            e.condition.load_model(&vs).expect("load_model");
+        }
         let base = trajectories(&e, &lines);
         let states = stream_states(&e, &lines, 1);
         let mut eh = e.clone();
         eh.condition.set_additional_half_tone(h);
+        if reload {
+            let vs = eh.voices.clone();
+            eh.condition.load_model(&vs).expect("load_model");
+        }
         let shifted = trajectories(&eh, &lines);
         let mut line = format!("ht {}", kind);
         push_f(&mut line, h);
@@ -565,6 +610,26 @@ pub fn gen_c15(seed: u64, thorough: bool) {
 }
 
 // =========================================================================================== C16
+/// the waveform through one of the three public routes
+pub fn render_route(e: &Engine, lines: &[String], route: usize) -> Result<Vec<f64>, String> {
+    match route {
+        0 => e.synthesize(lines.to_vec()).map_err(|x| format!("{x}")),
+        1 => Ok(e.generator(lines.to_vec()).map_err(|x| format!("{x}"))?.generate_all()),
+        _ => {
+            let mut g = e.generator(lines.to_vec()).map_err(|x| format!("{x}"))?;
+            let fp = e.condition.get_fperiod();
+            let mut buf = vec![0.0f64; fp + 3];
+            let mut acc = Vec::new();
+            loop {
+                let n = g.generate_step(&mut buf);
+                if n == 0 { break; }
+                acc.extend_from_slice(&buf[..n]);
+            }
+            Ok(acc)
+        }
+    }
+}
+
 pub fn gen_c16(seed: u64, thorough: bool) {
     let mut rng = Rng::new(seed);
     let src = Sources::new();
@@ -576,14 +641,17 @@ pub fn gen_c16(seed: u64, thorough: bool) {
         let nlab = rng.range(1, 3);
         let lines = src.labels(&mut rng, nlab, false);
         let v = if i % 6 == 0 { *rng.pick(&[6.0205999132796239, -6.0205999132796239, 60.0, -60.0, 20.0]) } else { rng.uniform(-60.0, 60.0) };
+        // the gain must reach every public route to the samples (seeded change C16f: applied by `synthesize` only):
+        // route 0 = Engine::synthesize, 1 = generator().generate_all(), 2 = generator() + generate_step loop
+        let route = i % 3;
         e.condition.set_volume(0.0);
-        let w0 = catch(std::panic::AssertUnwindSafe(|| e.synthesize(lines.clone()).map_err(|x| format!("{x}"))));
+        let w0 = catch(std::panic::AssertUnwindSafe(|| render_route(&e, &lines, route)));
         let mut before = String::new();
         crate::c20::dump(&e.condition, e.voices.global_metadata().num_streams, &mut before);
         e.condition.set_volume(v);
         let mut after = String::new();
         crate::c20::dump(&e.condition, e.voices.global_metadata().num_streams, &mut after);
-        let wv = catch(std::panic::AssertUnwindSafe(|| e.synthesize(lines.clone()).map_err(|x| format!("{x}"))));
+        let wv = catch(std::panic::AssertUnwindSafe(|| render_route(&e, &lines, route)));
         let mut line = format!("vol {}", kind);
         push_f(&mut line, v);
         push_f(&mut line, e.condition.get_volume());
